@@ -1,6 +1,7 @@
 package main
 
 import (
+	"bytes"
 	"context"
 	"encoding/binary"
 	"errors"
@@ -22,6 +23,7 @@ import (
 	"github.com/database64128/shadowsocks-go/ss2022"
 	"github.com/database64128/shadowsocks-go/zerocopy"
 	"go.uber.org/zap"
+	"golang.org/x/net/ipv4"
 	"go.uber.org/zap/zapcore"
 	"go.uber.org/zap/zaptest/observer"
 )
@@ -74,17 +76,22 @@ func genRelayCase(r *common.Rng, idx int) RelayCase {
 		case x < 45 || sends == 0:
 			c.Ops = append(c.Ops, RelayOp{Op: "send", C: r.Intn(c.Clients), T: r.Intn(c.Targets), Dom: r.Chance(1, 2)})
 			sends++
-		case x < 70:
+		case x < 62:
 			c.Ops = append(c.Ops, RelayOp{Op: "reply", T: r.Intn(c.Targets), J: r.Intn(8)})
+		case x < 70:
+			c.Ops = append(c.Ops, RelayOp{Op: "rburst", T: r.Intn(c.Targets), J: r.Intn(8), G: r.Intn(1 << 16)})
 		case x < 85:
 			c.Ops = append(c.Ops, RelayOp{Op: "garbage", C: r.Intn(c.Clients), G: r.Intn(6), Fresh: r.Chance(1, 3)})
 		case x < 92:
 			c.Ops = append(c.Ops, RelayOp{Op: "move", C: r.Intn(c.Clients)})
 		case x < 96:
-			c.Ops = append(c.Ops, RelayOp{Op: "stall", C: r.Intn(c.Clients), T: r.Intn(c.Targets), J: r.Intn(8)})
+			c.Ops = append(c.Ops, RelayOp{Op: "stall", C: r.Intn(c.Clients), T: r.Intn(c.Targets), J: r.Intn(8), G: r.Intn(1 << 16)})
 		default:
 			c.Ops = append(c.Ops, RelayOp{Op: "burst", C: r.Intn(c.Clients)})
 		}
+	}
+	for k := 0; k < 4; k++ {
+		c.Ops = append(c.Ops, RelayOp{Op: "rburst", T: r.Intn(c.Targets), J: r.Intn(8), G: r.Intn(1 << 16)})
 	}
 	if r.Chance(1, 2) {
 		c.Flood = r.Range(20, 120)
@@ -212,6 +219,26 @@ func parseSocksAddr(b []byte) (tAddr, int, error) {
 func payloadBytes(id int, r *common.Rng) []byte {
 	b := binary.BigEndian.AppendUint64(nil, uint64(id))
 	return append(b, r.Bytes(8+r.Intn(24))...)
+}
+
+// payload generates and remembers the payload with identity id (so that every observation can be checked byte for byte).
+func (x *relayRun) payload(id int) []byte {
+	b := payloadBytes(id, x.r)
+	x.plData[id] = b
+	return b
+}
+
+func (x *relayRun) payloadN(id, n int) []byte {
+	b := binary.BigEndian.AppendUint64(nil, uint64(id))
+	b = append(b, x.r.Bytes(n-8)...)
+	x.plData[id] = b
+	return b
+}
+
+// intact: the bytes are exactly a payload the harness generated.
+func (x *relayRun) intact(b []byte) bool {
+	want, ok := x.plData[payloadID(b)]
+	return ok && bytes.Equal(want, b)
 }
 
 func payloadID(b []byte) int {
@@ -365,12 +392,14 @@ type relayRun struct {
 	sidClient []int // observed session -> owning client
 	sidSock   []int // observed session -> socket its latest accepted datagram came from
 	sockOwner map[int]int
+	plData    map[int][]byte
 	keyToSid  map[int]int
 	stallN    int
 	keySid    map[int]bool
 	modelSids int
 	twoWay    map[int]bool
 	stopHung  bool
+	rbursts   int
 }
 
 func tname(i int) string { return fmt.Sprintf("t%d.c11.test", i) }
@@ -393,6 +422,7 @@ func (x *relayRun) setup() error {
 	x.portSid, x.keySid, x.twoWay = map[uint16]int{}, map[int]bool{}, map[int]bool{}
 	x.sockOwner = map[int]int{}
 	x.keyToSid = map[int]int{}
+	x.plData = map[int][]byte{}
 	x.nextPl = 1000
 	// targets: same port on 127.0.0.(20+i), so that a datagram sent to another session's resolved
 	// address still lands on a monitored socket
@@ -739,7 +769,13 @@ func (x *relayRun) nextAtTargets() (t int, from netip.AddrPort, plid int, innerD
 					t = i
 				}
 			}
+			if !x.intact(payload) {
+				x.fail("payload-altered", fmt.Sprintf("datagram at the upstream proxy carries bytes no client sent (id %d, %d bytes)", payloadID(payload), len(payload)))
+			}
 			return t, d.from, payloadID(payload), !a.ip.IsValid(), true
+		}
+		if !x.intact(d.data) {
+			x.fail("payload-altered", fmt.Sprintf("datagram at target %d carries bytes no client sent (id %d, %d bytes)", d.sock, payloadID(d.data), len(d.data)))
 		}
 		return d.sock, d.from, payloadID(d.data), false, true
 	case <-time.After(waitDatagram):
@@ -757,7 +793,7 @@ func (x *relayRun) opSend(o RelayOp) {
 	x.nextPl++
 	pl := x.nextPl
 	x.plTarget[pl], x.plClient[pl] = t, o.C
-	wire, err := x.encode(hc, ta, payloadBytes(pl, x.r))
+	wire, err := x.encode(hc, ta, x.payload(pl))
 	if err != nil {
 		x.fail("harness-encode", err.Error())
 		return
@@ -833,7 +869,7 @@ func (x *relayRun) opReply(o RelayOp) {
 	x.nextPl++
 	pl := x.nextPl
 	owner := x.sidClient[sid]
-	data := payloadBytes(pl, x.r)
+	data := x.payload(pl)
 	src := netip.AddrPortFrom(x.taddrs[o.T], x.tport)
 	dst := netip.AddrPortFrom(netip.MustParseAddr("127.0.0.1"), x.sidPort[sid])
 	if x.viaUpstream() {
@@ -864,8 +900,8 @@ func (x *relayRun) opReply(o RelayOp) {
 		if d.sock != x.sidSock[sid] {
 			x.fail("reply-to-wrong-address", fmt.Sprintf("reply %d for session %d of client %d arrived at socket %d; the session's latest datagram came from socket %d", pl, sid, owner, d.sock, x.sidSock[sid]))
 		}
-		if payloadID(payload) != pl {
-			x.fail("reply-payload", fmt.Sprintf("reply payload %d, expected %d", payloadID(payload), pl))
+		if payloadID(payload) != pl || !x.intact(payload) {
+			x.fail("reply-payload", fmt.Sprintf("reply payload id %d (%d bytes, intact=%v), expected %d", payloadID(payload), len(payload), x.intact(payload), pl))
 		}
 		want := src.String()
 		if x.c.Server == "direct" {
@@ -884,6 +920,158 @@ func (x *relayRun) opReply(o RelayOp) {
 	case <-time.After(waitDatagram):
 		x.impl = append(x.impl, "lost")
 		x.fail("reply-lost", fmt.Sprintf("reply %d from %s to session %d did not arrive within %s", pl, src, sid, waitDatagram))
+	}
+}
+
+// opReplyBurst: one target (or the upstream proxy) sends a burst of replies to one relay session in a single
+// sendmmsg call, so that the relay's downlink reads several of them in one batch; some of them must be
+// DROPPED by the relay (truncated on receive, too big for the client's path once the reply header is added,
+// unparsable from the upstream proxy). Every good reply must arrive, in order, intact, with its true source;
+// nothing else may arrive.
+func (x *relayRun) opReplyBurst(o RelayOp) {
+	if len(x.sidPort) == 0 {
+		return
+	}
+	sid := o.J % len(x.sidPort)
+	if x.sidPort[sid] == 0 {
+		return
+	}
+	owner := x.sidClient[sid]
+	src := netip.AddrPortFrom(x.taddrs[o.T], x.tport)
+	dst := &net.UDPAddr{IP: net.IPv4(127, 0, 0, 1), Port: int(x.sidPort[sid])}
+	sock := x.tg.get(o.T)
+	if x.viaUpstream() {
+		sock = x.tg.get(len(x.taddrs))
+	}
+	rr := common.NewRng(uint64(o.G)*2654435761 + 17)
+	n := rr.Range(6, 14)
+	type el struct {
+		pl   int
+		good bool
+	}
+	var els []el
+	var msgs []ipv4.Message
+	for i := 0; i < n; i++ {
+		x.nextPl++
+		pl := x.nextPl
+		kind := rr.Intn(10)
+		var wire []byte
+		good := true
+		switch {
+		case kind < 2: // longer than the relay's receive buffer: truncated, dropped
+			wire, good = x.payloadN(pl, 1600+rr.Intn(200)), false
+		case kind < 4 && x.c.Client == "direct" && x.c.Server != "direct":
+			// fits the NAT socket's receive buffer, too big for the client once the source header is added
+			wire, good = x.payloadN(pl, 1470), false
+		case kind < 4 && x.viaUpstream():
+			// not a reply of the upstream protocol at all
+			wire, good = append([]byte{9, 9, 9, 9}, x.payloadN(pl, 40)...), false
+			if x.c.Client == "ss2022" {
+				wire = x.payloadN(pl, 80)
+			}
+		case kind < 6:
+			wire = x.payloadN(pl, 900+rr.Intn(400))
+		default:
+			wire = x.payload(pl)
+		}
+		if good || kind < 2 {
+			if x.viaUpstream() {
+				var err error
+				body := wire
+				if !good {
+					body = body[:1300] // keep the inner payload encodable; the padding below makes the datagram too long
+				}
+				if wire, err = x.upstreamReply(src, body, x.sidPort[sid]); err != nil {
+					x.fail("harness-upstream-encode", err.Error())
+					return
+				}
+				if !good {
+					wire = append(wire, make([]byte, 400)...)
+				}
+			}
+		}
+		els = append(els, el{pl, good})
+		msgs = append(msgs, ipv4.Message{Buffers: [][]byte{wire}, Addr: dst})
+		if good {
+			x.script = append(x.script, fmt.Sprintf("down %d %d %d %d", sid, ipNat(src.Addr()), src.Port(), pl))
+		} else {
+			x.script = append(x.script, fmt.Sprintf("down %d none", sid))
+		}
+	}
+	pc := ipv4.NewPacketConn(sock)
+	for sent := 0; sent < len(msgs); {
+		k, err := pc.WriteBatch(msgs[sent:], 0)
+		if err != nil {
+			x.fail("harness-write", err.Error())
+			return
+		}
+		sent += k
+	}
+	x.rbursts++
+	// arrivals at the client sockets, in order
+	goods := 0
+	for _, e := range els {
+		if e.good {
+			goods++
+		}
+	}
+	var got []string
+	hc := x.clients[owner]
+	want := src.String()
+	if x.c.Server == "direct" {
+		want = "-"
+	}
+	for len(got) < goods {
+		wait := 400 * time.Millisecond
+		if len(got) == 0 {
+			wait = waitDatagram
+		}
+		var d dgram
+		select {
+		case d = <-x.cg.ch:
+		case <-time.After(wait):
+			wait = 0
+		}
+		if wait == 0 {
+			break
+		}
+		s, payload, err := x.decode(hc, d)
+		if err != nil {
+			x.fail("reply-undecodable", fmt.Sprintf("reply burst: datagram at client socket %d does not decode with the owner's session: %v", d.sock, err))
+			got = append(got, "undecodable")
+			continue
+		}
+		if !x.intact(payload) {
+			x.fail("reply-payload", fmt.Sprintf("reply burst: client %d received %d bytes (id %d) that no target sent", owner, len(payload), payloadID(payload)))
+		}
+		if d.sock != x.sidSock[sid] {
+			x.fail("reply-to-wrong-address", fmt.Sprintf("reply burst: reply %d for session %d arrived at socket %d, expected socket %d", payloadID(payload), sid, d.sock, x.sidSock[sid]))
+		}
+		if s != want {
+			x.fail("reply-source", fmt.Sprintf("reply burst: reply %d names source %s, true source %s", payloadID(payload), s, want))
+		}
+		srcField := "-"
+		if s != "-" {
+			ap, _ := netip.ParseAddrPort(s)
+			srcField = fmt.Sprintf("%d:%d", ipNat(ap.Addr()), ap.Port())
+		}
+		got = append(got, fmt.Sprintf("reply %d %s %d", d.sock, srcField, payloadID(payload)))
+	}
+	k := 0
+	for _, e := range els {
+		switch {
+		case !e.good:
+			x.impl = append(x.impl, "noop")
+		case k < len(got):
+			x.impl = append(x.impl, got[k])
+			k++
+		default:
+			x.impl = append(x.impl, "lost")
+			x.fail("reply-lost", fmt.Sprintf("reply burst: good reply %d from %s to session %d never arrived (burst of %d with drops inside)", e.pl, src, sid, len(els)))
+		}
+	}
+	if goods > 0 && len(got) == goods {
+		x.twoWay[sid] = true
 	}
 }
 
@@ -1045,22 +1233,36 @@ func (x *relayRun) opStall(o RelayOp) {
 	}
 	extra := 1 + o.J%5
 	var pls []int
-	sendOne := func() bool {
+	var kinds []int // 0 = the stalled name, 1 = a name that does not resolve (dropped by the uplink), 2 = IP target
+	nxName := fmt.Sprintf("nx%d.c11.test", x.stallN)
+	nxDom := 9000 + x.stallN
+	sendKind := func(kind int) bool {
 		x.nextPl++
 		pl := x.nextPl
 		pls = append(pls, pl)
+		kinds = append(kinds, kind)
 		x.plTarget[pl], x.plClient[pl] = o.T, o.C
-		wire, err := x.encode(hc, ta, payloadBytes(pl, x.r))
+		a, tl := ta, fmt.Sprintf("dom %d %d %d", dom, x.tport, pl)
+		switch kind {
+		case 1:
+			a, tl = tAddr{name: nxName, port: x.tport}, fmt.Sprintf("dom %d %d %d", nxDom, x.tport, pl)
+			x.plTarget[pl] = -2 // must never arrive anywhere
+		case 2:
+			a, tl = tAddr{ip: x.taddrs[o.T], port: x.tport}, fmt.Sprintf("ip %d %d %d", ipNat(x.taddrs[o.T]), x.tport, pl)
+		}
+		wire, err := x.encode(hc, a, x.payload(pl))
 		if err != nil {
 			x.fail("harness-encode", err.Error())
 			return false
 		}
 		hc.lastPkt = wire
-		x.script = append(x.script, fmt.Sprintf("recv %d %d dom %d %d %d", key, hc.sock, dom, x.tport, pl))
+		x.script = append(x.script, fmt.Sprintf("recv %d %d %s", key, hc.sock, tl))
 		x.impl = append(x.impl, "*")
 		x.cg.get(hc.sock).WriteToUDPAddrPort(wire, x.relay.addr)
 		return true
 	}
+	sendOne := func() bool { return sendKind(0) }
+	kr := common.NewRng(uint64(o.G)*0x9e3779b97f4a7c15 + 3)
 	if !sendOne() {
 		return
 	}
@@ -1083,7 +1285,15 @@ func (x *relayRun) opStall(o RelayOp) {
 		return
 	}
 	for i := 0; i < relayCap+extra; i++ {
-		if !sendOne() {
+		// drops INSIDE the batch the uplink will send after the release (mmsg path: one sendmmsg vector)
+		kind := 0
+		switch v := kr.Intn(10); {
+		case v >= 8:
+			kind = 1
+		case v >= 6:
+			kind = 2
+		}
+		if !sendKind(kind) {
 			break
 		}
 		if i%16 == 15 {
@@ -1096,12 +1306,13 @@ func (x *relayRun) opStall(o RelayOp) {
 	ipn := ipNat(x.taddrs[o.T])
 	x.script = append(x.script, fmt.Sprintf("resolved %d %d", sid, ipn), fmt.Sprintf("storeip %d", sid), fmt.Sprintf("readsend %d", sid))
 	x.impl = append(x.impl, "ok", "ok")
+	x.dns.setHoldAll(false) // the names that do not resolve are answered (NXDOMAIN) at once
 	x.dns.release(name, dnsAnswer{ip: x.taddrs[o.T]})
 	// arrivals, in order
 	var got []string
 	want := map[int]bool{}
-	for _, p := range pls {
-		want[p] = true
+	for i, p := range pls {
+		want[p] = kinds[i] != 1
 	}
 	var relayPort uint16
 	quiet := 300 * time.Millisecond
@@ -1123,15 +1334,25 @@ func (x *relayRun) opStall(o RelayOp) {
 		if !want[pl] || d.sock != o.T {
 			x.fail("wrong-destination", fmt.Sprintf("after a held resolution: payload %d (target %d) arrived at target %d", pl, x.plTarget[pl], d.sock))
 		}
+		if !x.intact(d.data) {
+			x.fail("payload-altered", fmt.Sprintf("after a held resolution: payload %d arrived altered (%d bytes) at target %d", pl, len(d.data), d.sock))
+		}
 		relayPort = d.from.Port()
 		got = append(got, fmt.Sprintf("sent %d %d %d", ipNat(x.taddrs[d.sock]), x.tport, pl))
 	}
+	k := 0
 	for i := range pls {
 		if i > 0 {
+			if kinds[i] == 1 {
+				x.script = append(x.script, fmt.Sprintf("pack %d fail", sid))
+				x.impl = append(x.impl, "*") // a dropped datagram is not observable (its absence is: see `want`)
+				continue
+			}
 			x.script = append(x.script, fmt.Sprintf("pack %d -", sid))
 		}
-		if i < len(got) {
-			x.impl = append(x.impl, got[i])
+		if k < len(got) {
+			x.impl = append(x.impl, got[k])
+			k++
 		} else {
 			x.impl = append(x.impl, "noop")
 		}
@@ -1217,7 +1438,7 @@ func (x *relayRun) flood() (sent, arrived, echoed int) {
 			t := ci % len(x.taddrs)
 			x.nextPl++
 			info[x.nextPl] = fl{ci, t}
-			w, err := x.encode(hc, x.targetAddr(t, i%2 == 0), payloadBytes(x.nextPl, x.r))
+			w, err := x.encode(hc, x.targetAddr(t, i%2 == 0), x.payload(x.nextPl))
 			if err != nil {
 				continue
 			}
@@ -1242,9 +1463,10 @@ loop:
 		case d := <-x.tg.ch:
 			quiet.Reset(400 * time.Millisecond)
 			var t, pl int
-			var echo []byte
+			var echo, pbytes []byte
 			if x.viaUpstream() {
 				a, payload, err := x.parseUpstream(d.data, d.from)
+				pbytes = payload
 				if err != nil {
 					x.fail("upstream-unparsable", err.Error())
 					continue
@@ -1263,9 +1485,13 @@ loop:
 					}
 				}
 			} else {
-				t, pl, echo = d.sock, payloadID(d.data), d.data
+				t, pl, echo, pbytes = d.sock, payloadID(d.data), d.data, d.data
 			}
 			f, ok := info[pl]
+			if ok && !x.intact(pbytes) {
+				x.fail("payload-altered", fmt.Sprintf("under concurrency: payload %d arrived altered at target %d", pl, t))
+				continue
+			}
 			if !ok || pl < base {
 				x.fail("flood-unknown-payload", fmt.Sprintf("datagram with unknown payload %d at target %d", pl, t))
 				continue
@@ -1295,6 +1521,10 @@ loop:
 				continue
 			}
 			f, ok := info[payloadID(payload)]
+			if ok && !x.intact(payload) {
+				x.fail("reply-payload", fmt.Sprintf("under concurrency: echo of payload %d arrived altered at client %d", payloadID(payload), owner))
+				continue
+			}
 			if !ok || f.client != owner {
 				x.fail("reply-to-wrong-client", fmt.Sprintf("under concurrency: client %d received the echo of payload %d, which client %d sent", owner, payloadID(payload), f.client))
 				continue
@@ -1354,6 +1584,8 @@ func runRelayCase(c RelayCase, dns *scriptDNS, shared bool) (res relayResult, er
 			x.opBurst(o)
 		case "stall":
 			x.opStall(o)
+		case "rburst":
+			x.opReplyBurst(o)
 		}
 	}
 	// barrier + quiescence: nothing unsolicited anywhere
